@@ -507,6 +507,12 @@ def judgeParse (cfg : ParseCfg) (cid : String) (o : Op) (hs : HState) (out : Out
     let rootId := toNat rootIdS
     let wf := tableWF tab && !hasBad tab && crashy == 0
     out := out.v cid o.n "C03" "K" wf s!"acyclic/wellformed export wf={wf}"
+    -- a cost field that is not a non-negative number makes the exported line malformed: under the
+    -- cost flag that is a violation of the additive law (C04), in one-parse mode of C02
+    if hs.st.cost != 0 then
+      out := out.v cid o.n "C04" "K" wf s!"cost flag: every exported node well-formed (cost fields are non-negative numbers) wf={wf}"
+    if hs.st.one != 0 then
+      out := out.v cid o.n "C02" "K" wf s!"one parse: every exported node well-formed wf={wf}"
     out := out.v cid o.n "C03" "K" (noNestedAlt tab && (o.get "nestedalt").isEmpty) "no ALT directly under ALT"
     let nNil := (tab.toList.filter fun r => match r with | .nil => true | _ => false).length
     let nErr := (tab.toList.filter fun r => match r with | .err => true | _ => false).length
